@@ -81,8 +81,15 @@ def mtl_rejects(t):
             def capture(interp, args, kwargs):
                 captured.append(args[0])
                 return None
+            def leaf_contract(interp, args, kwargs):
+                # contract of _get_leaf_tensors (C12): SOME set of leaves requiring grad [T: AccumulateGrad variables]
+                D = V.SymSet(interp.cx, "discovered")
+                tq = z3.Const("t!q", A.TenS)
+                interp.cx.assume(V.forall([tq], z3.Implies(D.contains(tq), A.expects_grad(tq))), tag="discovered parameters are leaves requiring grad [T]")
+                return D
             ov = dict(A.SUMMARIES)
             ov[f"{TR}.base.Transform.__call__"] = capture
+            ov[f"{AJ}._utils._get_leaf_tensors"] = leaf_contract
             it = H.interp(cx, loop_specs=A.LOOPS, overrides=ov)
             F = A.tensor_list(cx, "F", distinct=None)
             S = A.tensor_list(cx, "S", distinct=None)
@@ -91,22 +98,28 @@ def mtl_rejects(t):
             k, kn = z3.Int("chunk"), z3.Bool("chunk_is_none")
             rg = z3.Bool("retain_graph")
             agg = AbstractAgg(cx, may_raise=True)
+            # either group of parameters may be left to its default (discovered from the graph): the OTHER, explicit, group is
+            # validated all the same
+            style = cx.choose(3, "defaults")
+            s_arg = None if style == 1 else S
+            tp_arg = None if style == 2 else list(TP)
             kind, out = call_catch(lambda: it.call(H.repo.get(f"{AJ}.mtl_backward.mtl_backward"),
-                                                   [list(losses), F, agg, list(TP), S, rg, V.Opt(kn, k)]))
+                                                   [list(losses), F, agg, tp_arg, s_arg, rg, V.Opt(kn, k)]))
             if kind == "raise":
                 cx.oblige(f"C20.mtl{t}.rejected_before_the_pipeline_runs", len(captured) == 0, where=str(getattr(out, "where", "")))
                 cx.oblige(f"C20.mtl{t}.rejection_is_ValueError", out.cls == "ValueError", where=str(getattr(out, "where", "")))
                 return
             cx.oblige(f"C20.mtl{t}.pipeline_run_once", len(captured) == 1)
             w = cx.fresh_int("w")
-            for name, seq in [("shared", S)] + [(f"task{i}", TP[i]) for i in range(t)]:
+            explicit = ([("shared", S)] if s_arg is not None else []) + ([(f"task{i}", TP[i]) for i in range(t)] if tp_arg is not None else [])
+            for name, seq in explicit:
                 cx.oblige(f"C20.mtl{t}.accepted_only_if_{name}_params_expect_grad",
                           z3.Implies(z3.And(0 <= w, w < seq.length), A.expects_grad(seq.get(w).ref)))
             cx.oblige(f"C20.mtl{t}.accepted_only_with_positive_chunk", z3.Or(kn, k > 0))
             cx.oblige(f"C20.mtl{t}.accepted_only_with_features", F.length >= 1)
             # shared / task overlap is rejected
             a, b = cx.fresh_int("oa"), cx.fresh_int("ob")
-            for i in range(t):
+            for i in range(t if (s_arg is not None and tp_arg is not None) else 0):
                 cx.oblige(f"C20.mtl{t}.accepted_only_without_overlap.task{i}",
                           z3.Implies(z3.And(0 <= a, a < S.length, 0 <= b, b < TP[i].length), S.get(a).ref != TP[i].get(b).ref))
         H.explore(body, max_paths=4000)
